@@ -5,7 +5,7 @@
    the token tree it was written from, for each renderer's token sets. *)
 From Coq Require Import ZArith List Bool Lia.
 From Mistletoe Require Import Base.Sx Base.PyStr Base.PyText Gen.GenTables Gen.GenConfig Model.Tree Model.CoreTokens Model.Block Model.Build
-     Model.Parser Proofs.PlainProse Proofs.Prose Proofs.ProseLines Proofs.ListLaw Proofs.FenceLaw Spec.Fragment Proofs.FragmentP Proofs.EmphSimple Proofs.InertProse Proofs.RefSentence Proofs.CodeSpan.
+     Model.Parser Proofs.PlainProse Proofs.Prose Proofs.ProseLines Proofs.ListLaw Proofs.FenceLaw Spec.Fragment Proofs.FragmentP Proofs.EmphSimple Proofs.InertProse Proofs.RefSentence Proofs.CodeSpan Proofs.LeafSpans.
 Import ListNotations.
 Local Open Scope Z_scope.
 
@@ -61,7 +61,7 @@ Lemma deep_line : forall f t, (depth t <= f)%nat -> wf_b t = true -> exists l, I
 Proof.
   induction f as [|f IH].
   - intros t Hd Hw.
-    destruct t as [c body more|ch n content|ts|mk pad ts|mk pad ts bl next|lv hc hb|rc rn|e0 epre ech edbl ew epost|l0 lpre lw ldest lpost|s0 st0' sgs|k0 kpre kcode kpost|b0 bbody bk bmore]; [| |cbn [depth] in Hd; lia|cbn [depth] in Hd; lia|cbn [depth] in Hd; lia| | | | | | |].
+    destruct t as [c body more|ch n content|ts|mk pad ts|mk pad ts bl next|lv hc hb|rc rn|e0 epre ech edbl ew epost|l0 lpre lw ldest lpost|s0 st0' sgs|k0 kpre kcode kpost|b0 bbody bk bmore|o0 opre ox opost]; [| |cbn [depth] in Hd; lia|cbn [depth] in Hd; lia|cbn [depth] in Hd; lia| | | | | | | |].
     + exists (SLine 0 c body). split; [left; reflexivity|cbn [depth weight]; lia].
     + exists (SLine 0 ch (repeat ch (n - 1))). split; [left; reflexivity|cbn [depth weight]; lia].
     + eexists. split; [left; reflexivity|cbn [depth weight]; lia].
@@ -71,7 +71,8 @@ Proof.
     + eexists. split; [left; reflexivity|cbn [depth weight]; lia].
     + eexists. split; [left; reflexivity|cbn [depth weight]; lia].
     + destruct bmore; eexists; (split; [left; reflexivity|cbn [depth weight]; lia]).
-  - intros t. induction t as [c body more|ch n content|ts|mk pad ts|mk pad ts bl next IHn|lv hc hb|rc rn|e0 epre ech edbl ew epost|l0 lpre lw ldest lpost|s0 st0' sgs|k0 kpre kcode kpost|b0 bbody bk bmore]; intros Hd Hw.
+    + eexists. split; [left; reflexivity|cbn [depth weight]; lia].
+  - intros t. induction t as [c body more|ch n content|ts|mk pad ts|mk pad ts bl next IHn|lv hc hb|rc rn|e0 epre ech edbl ew epost|l0 lpre lw ldest lpost|s0 st0' sgs|k0 kpre kcode kpost|b0 bbody bk bmore|o0 opre ox opost]; intros Hd Hw.
     + exists (SLine 0 c body). split; [left; reflexivity|cbn [depth weight]; lia].
     + exists (SLine 0 ch (repeat ch (n - 1))). split; [left; reflexivity|cbn [depth weight]; lia].
     + cbn [wf_b] in Hw. repeat rewrite andb_true_iff in Hw. destruct Hw as [[Hs Hall] Hg].
@@ -99,6 +100,7 @@ Proof.
     + eexists. split; [left; reflexivity|cbn [depth weight]; lia].
     + eexists. split; [left; reflexivity|cbn [depth weight]; lia].
     + destruct bmore; eexists; (split; [left; reflexivity|cbn [depth weight]; lia]).
+    + eexists. split; [left; reflexivity|cbn [depth weight]; lia].
 Qed.
 
 Lemma longest_ge (lines : list str) l : In l lines -> forall a, (length l <= fold_left (fun m x => Nat.max m (length x)) lines a)%nat.
